@@ -1,9 +1,11 @@
 package props
 
 import (
+	"bytes"
 	"encoding/json"
 	"fmt"
 	"sort"
+	"strings"
 	"sync"
 	"time"
 
@@ -203,4 +205,46 @@ func validateChunk(r *core.Run, mu *sync.Mutex, module, cfg, entry string, ops [
 		mu.Unlock()
 		lines, owner = lines[hi:], owner[hi:]
 	}
+}
+
+// bindingSelfTest corrupts one recorded argument of the first `event` (after the first 100 lines) and requires the
+// trace specification to refuse the prefix up to there: the demonstration that the specification constrains the
+// recorded executions and not only their length.
+func bindingSelfTest(r *core.Run, module, cfg string, ts *traceSet, event string, arg int, delta float64) {
+	idx := -1
+	esc := strings.NewReplacer(">", "\\u003e", "<", "\\u003c").Replace(event)
+	for i, l := range ts.lines {
+		if i > 100 && (bytes.Contains(l, []byte(`"e":"`+event+`"`)) || bytes.Contains(l, []byte(`"e":"`+esc+`"`))) {
+			idx = i
+			break
+		}
+	}
+	if idx < 0 {
+		r.Machinery("%s binding self-test: no %s event recorded", module, event)
+		return
+	}
+	// the whole run that contains the event (from its start record on), plus the lines before it
+	n := idx + 1
+	for n < len(ts.lines) && ts.owner[n] == ts.owner[idx] {
+		n++
+	}
+	cor := append([][]byte{}, ts.lines[:n]...)
+	var e map[string]interface{}
+	json.Unmarshal(cor[idx], &e)
+	a, _ := e["a"].([]interface{})
+	if arg >= len(a) {
+		r.Machinery("%s binding self-test: event %s has %d arguments", module, event, len(a))
+		return
+	}
+	a[arg] = a[arg].(float64) + delta
+	cor[idx], _ = json.Marshal(e)
+	tr, err := core.ValidateTrace(module, cfg, cor, false, 10*time.Minute)
+	if err == nil {
+		tr.TLC.Cleanup()
+	}
+	if err != nil || tr.Accepted {
+		r.Machinery("%s binding self-test failed: a corrupted %s event was accepted (err=%v)", module, event, err)
+		return
+	}
+	r.Extra["binding_selftest"] = fmt.Sprintf("a %s event with argument %d off by %v is refused by %s (matched %d of %d lines, corrupted line %d, invariant %q)", event, arg, delta, module, tr.Matched, len(cor), idx, tr.InvViol)
 }
